@@ -283,7 +283,7 @@ func main() {
 		scenario("twowriters-blocked-sink+close", shape{writes: 1, writer2: true, blockOut: true}),
 		scenario("reader+writer-both-blocked+close", shape{reads: 1, writes: 1, starve: true, blockOut: true}),
 	}
-	smode.Main(c, scs, 1, 2,
+	smode.Main(c, scs, 1, 3,
 		"Scenarios on the real x/fakenet (rewritten onto vrt): a source thread feeding \"ab\",\"cd\" into the in side, reader R (2 reads), optional second reader, writer W (2 writes), closer C, optional late user started after Close returned (1 read, 1 write); three scenarios in which the underlying Read never gets data and/or the underlying Write never completes until Close (two readers, two writers, reader+writer).",
 		[]string{"oracle streammodel: reads return a prefix of the source in order; the underlying writer sees whole write buffers in issue order including every acknowledged write; operations started after Close returned yield (0, io.EOF); no thread remains blocked"})
 }
